@@ -201,6 +201,12 @@ class ExprMixin:
         raise Unsupported("starred expression")
 
     def ev_Slice(self, e):
+        # s[:-k] with k > 0 known on this path: end = max(0, len - k), encoded without the sign case split
+        if e.lower is None and e.step is None and isinstance(e.upper, ast.UnaryOp) and isinstance(e.upper.op, ast.USub):
+            k = self.eval(e.upper.operand)
+            if isinstance(k, SV) and k.ty == TInt and not self.feasible((k <= 0).t):
+                return slice(None, ("from_end", k), None)
+            return slice(None, -k if not isinstance(k, SV) else -k, None)
         return slice(
             self.eval(e.lower) if e.lower else None,
             self.eval(e.upper) if e.upper else None,
@@ -267,6 +273,14 @@ class ExprMixin:
             f = {"Add": operator.add, "Sub": operator.sub, "Mult": operator.mul, "FloorDiv": operator.floordiv, "Mod": operator.mod, "Pow": operator.pow, "BitOr": operator.or_, "BitAnd": operator.and_, "Div": operator.truediv}[op]
             return f(a, b)
         if op == "Add":
+            def unopt(x):
+                if isinstance(x, SV) and isinstance(x.ty, TOpt) and (isinstance(x.ty.elem, TSeq) or x.ty.elem == TStr):
+                    self.oblige("attr", x.ty.is_some(x), node, "None used as an operand of +")
+                    self.assume(x.ty.is_some(x))
+                    return x.ty.val(x)
+                return x
+
+            a, b = unopt(a), unopt(b)
             if isinstance(a, (tuple, list)) and isinstance(b, (tuple, list)):
                 return type(a)(list(a) + list(b))
             if isinstance(a, (tuple, list)) and isinstance(b, SV):
